@@ -92,6 +92,10 @@ func checkPLL(t failer, c hcase) (st stats) {
 				if u.Offset != math.MinInt64 && int64(call.Offset) != u.Offset {
 					t.Fatalf("update %d: stepped by %d, measured offset %d", i, call.Offset, u.Offset)
 				}
+				// the most negative offset cannot be negated: one nanosecond of saturation is tolerated, the direction is not
+				if u.Offset == math.MinInt64 && int64(call.Offset) > math.MinInt64+1 {
+					t.Fatalf("update %d: stepped by %d, measured offset %d (the most negative one)", i, call.Offset, u.Offset)
+				}
 				stepped = true
 			case "adjust":
 				st.adjusts++
